@@ -811,6 +811,74 @@ def _job_kinds(a):
         if exc is not None or seen_topics != want:
             bad("event-details-topic", "subscription %r (match=%s), EVENT with Details.topic=%r: handler saw "
                 "details.topic %r, expected %r (raised %r)" % (pattern, match, published, seen_topics, want, exc))
+    # ---- one method carrying several stacked @wamp.subscribe decorators (and a function decorated
+    # twice): subscribe(obj) sends one SUBSCRIBE per decorator, and an EVENT on any of the topics
+    # reaches the method
+    from autobahn import wamp
+    seen = []
+
+    class Multi:
+        @wamp.subscribe("com.multi.a")
+        @wamp.subscribe("com.multi.b")
+        @wamp.subscribe("com.multi.c", options=T.SubscribeOptions(details=True))
+        def on_any(self, *a_, **k_):
+            seen.append(("on_any", tuple(a_), sorted(k_)))
+
+        @wamp.subscribe("com.multi.single")
+        def on_single(self, *a_, **k_):
+            seen.append(("on_single", tuple(a_), sorted(k_)))
+    l1 = H.L1(observers=False).join()
+    s = l1.session
+    r = l1.api(s.subscribe, Multi())
+    l1.settle()
+    subs = [m for m in l1.transport.sent if isinstance(m, M.Subscribe)]
+    topics = sorted(m.topic for m in subs)
+    evals += 1
+    stats["stacked_decorator_cases"] += 1
+    want_topics = ["com.multi.a", "com.multi.b", "com.multi.c", "com.multi.single"]
+    if r[0] == "raise" or topics != want_topics:
+        bad("subscribe-wire", "object with a method under three stacked @wamp.subscribe decorators + one plain: "
+            "SUBSCRIBE topics %r expected %r (%s)" % (topics, want_topics, r[0]))
+    else:
+        for i, m in enumerate(subs):
+            l1.deliver(M.Subscribed(m.request, 300 + i))
+        for i, m in enumerate(subs):
+            del seen[:]
+            exc = l1.deliver(M.Event(300 + i, 950 + i, args=[i]))
+            l1.settle()
+            evals += 1
+            name = "on_single" if m.topic == "com.multi.single" else "on_any"
+            wantk = ["details"] if m.topic == "com.multi.c" else []
+            if exc is not None or seen != [(name, (i,), wantk)]:
+                bad("stacked-decorator-delivery", "EVENT on %s: handler calls %r (expected one call of %s, kwargs %s), "
+                    "raised %r" % (m.topic, seen, name, wantk, exc))
+    # ---- events forwarded over router-to-router links: EVENT.Details.forward_for in its legal shapes
+    # (authid may be null for an anonymous client) x handlers with and without details
+    for ff in ([{"session": 1, "authid": "a", "authrole": "r"}],
+               [{"session": 1, "authid": None, "authrole": "anonymous"}],
+               [{"session": 1, "authid": "a", "authrole": "r"}, {"session": 2 ** 53, "authid": None, "authrole": "r2"}]):
+        l1 = H.L1(observers=False).join()
+        s = l1.session
+        calls = []
+
+        def mk(tag, det):
+            def h(*a_, **k_):
+                d_ = k_.pop("details", None)
+                calls.append((tag, tuple(a_), det and getattr(d_, "forward_for", "<none>")))
+            return h
+        for i, det in enumerate((False, True, False)):
+            l1.api(s.subscribe, mk(i, det), "com.fwd.t", options=T.SubscribeOptions(details_arg="details") if det else None)
+            l1.settle()
+            req = [m for m in l1.transport.sent if isinstance(m, M.Subscribe)][-1].request
+            l1.deliver(M.Subscribed(req, 99))
+        exc = l1.deliver(M.Event(99, 990, args=[7], forward_for=ff))
+        l1.settle()
+        evals += 1
+        stats["forwarded_event_cases"] += 1
+        want = [(0, (7,), False), (1, (7,), ff), (2, (7,), False)]
+        if exc is not None or calls != want:
+            bad("forwarded-event", "EVENT with forward_for=%r: handler calls %r expected %r, raised %r" % (
+                ff, calls, want, exc))
     return {"evals": evals, "viol": viol, "stats": dict(stats), "samples": [{"kind": "handler-kinds", "events": evals}]}
 
 
